@@ -373,7 +373,28 @@ pub fn snippet(k: usize, c: &mut Choices) -> Snippet {
         }
         35 => {
             // only something that never produces a value fits where `!` is required
-            let s = match c.below(4) {
+            let s = match c.below(9) {
+                // `!` as the type of a field: only a field of type `!` (which has no value) fits
+                4 => {
+                    decls.push_str("fn zz_never(x: { zq: ! }) -> i32 { 1 }\n");
+                    "let zz = zz_never({ zq: 2 });\n"
+                }
+                5 => {
+                    decls.push_str("fn zz_never(x: { zq: !, zr: i32 }) -> i32 { 1 }\n");
+                    "let zzr = { zr: 1, zq: \"a\" };\nlet zz = zz_never(zzr);\n"
+                }
+                6 => {
+                    decls.push_str("record ZzN { zq: !, zr: i32 }\n");
+                    "let zz = ZzN { zq: 2, zr: 1 };\n"
+                }
+                7 => {
+                    decls.push_str("record ZzN { zq: ! }\nfn zz_never(x: ZzN) -> i32 { 1 }\n");
+                    "let zzr = { zq: true };\nlet zz = zz_never(zzr);\n"
+                }
+                8 => {
+                    decls.push_str("fn zz_never(x: { zq: Option[!] }) -> i32 { 1 }\n");
+                    "let zz = zz_never({ zq: Option.Some(2) });\n"
+                }
                 0 => "let zz: ! = 0;\n",
                 1 => "let zz: ! = \"a\";\n",
                 2 => {
